@@ -14,8 +14,10 @@ import (
 	"errors"
 	"fmt"
 	"net/url"
+	"strings"
 	"sync"
 	"time"
+	"unsafe"
 )
 
 // ---- server ----
@@ -34,6 +36,12 @@ type Config struct {
 	FlushAt []time.Duration
 	// Log receives one line per command.
 	Log func(kind, detail string)
+	// GetLatency, when set, replaces Latency for GET commands.
+	GetLatency func(n uint64) time.Duration
+	// WriteDelay: how long after Do the n-th command is serialised.
+	WriteDelay func(n uint64) time.Duration
+	// Report receives commands whose key or value is released memory.
+	Report func(detail string)
 }
 
 type entry struct {
@@ -153,7 +161,14 @@ func NewClient(opt ClientOption) (Client, error) {
 	return &client{}, nil
 }
 
-func BinaryString(b []byte) string { return string(b) }
+// BinaryString, like the real one, is a view of b and not a copy: the bytes
+// are read when the command is written to the connection.
+func BinaryString(b []byte) string {
+	if len(b) == 0 {
+		return ""
+	}
+	return unsafe.String(unsafe.SliceData(b), len(b))
+}
 
 // Cmd is the fluent command builder (every step of the real builder's type
 // chain is the same type here).
@@ -209,6 +224,9 @@ func (c *client) Do(ctx context.Context, cmd Completed) RedisResult {
 	if s.cfg.Latency != nil {
 		lat = s.cfg.Latency(n)
 	}
+	if cmd.c.op == "GET" && s.cfg.GetLatency != nil {
+		lat = s.cfg.GetLatency(n)
+	}
 	s.mu.Unlock()
 	if isDown {
 		// nothing comes back: the command ends with the caller's deadline
@@ -217,6 +235,19 @@ func (c *client) Do(ctx context.Context, cmd Completed) RedisResult {
 		s.mu.Unlock()
 		<-ctx.Done()
 		return RedisResult{err: context.Cause(ctx)}
+	}
+	// the client's writer serialises the command a moment after Do was called;
+	// only then are the bytes behind its key and value read
+	if s.cfg.WriteDelay != nil {
+		if d := s.cfg.WriteDelay(n); d > 0 && !sleepCtx(ctx, d) {
+			return RedisResult{err: context.Cause(ctx)}
+		}
+	}
+	cmd.c.key, cmd.c.val = strings.Clone(cmd.c.key), strings.Clone(cmd.c.val)
+	if s.cfg.Report != nil && (cmd.c.op == "SET" || cmd.c.op == "GET") {
+		if n := poisonRun(cmd.c.key); n >= 8 || poisonRun(cmd.c.val) >= 16 {
+			s.cfg.Report(fmt.Sprintf("%s command built from released memory: key %x value %x", cmd.c.op, trunc(cmd.c.key, 40), trunc(cmd.c.val, 24)))
+		}
 	}
 	// one way there ...
 	if !sleepCtx(ctx, lat/2) {
@@ -298,4 +329,25 @@ func (s *Server) exec(c Cmd) RedisResult {
 		return RedisResult{val: []byte("OK")}
 	}
 	return RedisResult{err: fmt.Errorf("vredis: unsupported command %q", c.op)}
+}
+
+// poisonRun is the longest run of the buffer pool's release pattern in s.
+func poisonRun(s string) int {
+	best, cur := 0, 0
+	for i := 0; i < len(s); i++ {
+		if s[i] == 0xDB {
+			cur++
+			best = max(best, cur)
+		} else {
+			cur = 0
+		}
+	}
+	return best
+}
+
+func trunc(s string, n int) string {
+	if len(s) > n {
+		return s[:n]
+	}
+	return s
 }
